@@ -21,5 +21,5 @@ for d in sorted(glob.glob(os.path.join(V, "seeded", "*"))):
     obs = sorted({re.sub(r"\[.*", "", os.path.basename(x.split("replay=")[1].split(".json")[0])) for x in v if "replay=" in x})
     rep = "; ".join(o.replace("_post.", ":").replace("_runtime-contract", ":runtime-contract") for o in obs[:4]) + (" (+%d more)" % (len(obs) - 4) if len(obs) > 4 else "")
     if m.get("check_exit") != 1:
-        rep = "**not reported** (exit %s)" % m.get("check_exit")
+        rep = "**not reported** (exit %s)%s" % (m.get("check_exit"), (": " + m["note"]) if m.get("note") else "")
     print("| %s | %s | %s | %s |" % (os.path.basename(d), m["summary"].replace("|", "/")[:260], m.get("needs", "").replace("|", "/")[:200], rep))
